@@ -42,7 +42,8 @@ theorem C20_wrapper (c1 : Conn) (sid : Int)
     (hmax : 4 ≤ c1.maxOutFrame) :
     ∃ b, (Frame.rstStream sid (streamClosedErrorCode : Int)).serialize? = some b ∧
     wp (frameErrorHandler (mkStreamClosed sid []))
-      (fun evs c2 => evs = [] ∧ c2 = { c1 with out := c1.out ++ b }) (fun _ _ => False) c1 := by
+      (fun evs c2 => evs = [] ∧ c2 = { c1 with out := c1.out ++ b, sent := c1.sent ++ [Frame.rstStream sid (streamClosedErrorCode : Int)] })
+      (fun _ _ => False) c1 := by
   obtain ⟨b, hb, hlen⟩ := rst_serialize sid (streamClosedErrorCode : Int) (by decide)
   refine ⟨b, hb, ?_⟩
   have htab : connTable c1.cstate .SEND_RST_STREAM = some c1.cstate := by
